@@ -56,9 +56,35 @@ Json gen(sim::Rng& rng, int tier)
         c["latency_us"] = static_cast<int>(5 + rng.below(300));
         clients.push(c);
     }
+    // a crowd, now and then: 70..120 clients send their one request at about the same instant, so that a worker finds far
+    // more connections readable in one poll, and far more responses queued at once, than any batch size somebody might
+    // have picked - and nothing follows that would wake it up again for what it left behind
+    const bool crowd = rng.chance(0.05);
+    if (crowd) {
+        p["workers"] = static_cast<int>(rng.range(1, 2));
+        clients = Json::array();
+        int n = static_cast<int>(70 + rng.below(51));
+        for (int i = 0; i < n; ++i) {
+            Json c = Json::object();
+            Json reqs = Json::array();
+            Json q = Json::object();
+            bool post = rng.chance(0.3);
+            q["method"] = post ? "POST" : "GET";
+            q["path"] = "echo";
+            q["tag"] = static_cast<long long>(++tag);
+            q["body_len"] = post ? static_cast<int>(rng.below(100)) : 0;
+            q["think_us"] = 0;
+            reqs.push(q);
+            c["requests"] = reqs;
+            c["start_us"] = static_cast<int>(rng.below(400));
+            c["latency_us"] = static_cast<int>(5 + rng.below(60));
+            clients.push(c);
+        }
+        p["crowd"] = true;
+    }
     p["clients"] = clients;
     // shutdown: after the whole load, or in the middle of it
-    if (rng.chance(0.5)) p["shutdown_at_us"] = -1;
+    if (rng.chance(0.5) || crowd) p["shutdown_at_us"] = -1;
     else p["shutdown_at_us"] = static_cast<int>(rng.below(12000));
     p["late_client"] = rng.chance(0.5);
     // in part of the runs the application calls the blocking serve() on a thread of its own instead of serveThreaded()
@@ -171,6 +197,7 @@ void run(const Json& plan)
     } else
         ep->serveThreaded();
 
+    if (plan.flag("crowd")) r.probe("crowd");
     const Json& jc = plan.get("clients");
     std::vector<std::shared_ptr<actors::Client>> clients;
     struct Sent { std::string method, path, tag, body; };
